@@ -539,7 +539,7 @@ def compare_with_model(ck, case, impl, ans):
 def body(ck: common.Check):
     ck.obligations(["PyxelModel.Props.C03"], ["PyxelModel.Drive.C03"])
     rng = ck.rng
-    k = 2 if ck.tier == "quick" else 40
+    k = 2 if ck.tier == "quick" else 25
     cases = []
     for _ in range(70 * k):
         cases.append(("random", gen_case(rng)))
